@@ -41,6 +41,7 @@ pub fn check_memo(ctx: &Ctx, g: Grammar, src: &str, caps: &[usize], st: &mut Sta
     for &cap in caps {
         let (r, c) = sv::raw_parse_budget(g, &text, Some(cap), false, Some(budget));
         st.count("configurations compared", 1);
+        st.count(&format!("inputs run at capacity {:>4}", cap), 1);
         if r == MemoOutcome::Budget {
             st.class("capacity run exceeded the work budget (inconclusive)");
             continue;
@@ -62,6 +63,7 @@ pub fn check_memo(ctx: &Ctx, g: Grammar, src: &str, caps: &[usize], st: &mut Sta
                 }
                 if ra == rb {
                     st.known("K3");
+                    st.count(&format!("K3-attributed divergences at capacity {:>4}", cap), 1);
                     st.class(&format!("K3 direction: unbounded {} / capacity {} {}", describe(&base), if cap <= 13 { "<=13" } else if cap <= 64 { "32-64" } else { ">=128" }, describe(&r)));
                     continue;
                 }
@@ -199,6 +201,39 @@ impl Prop for C17 {
     }
     fn witness(&self, _ctx: &Ctx, f: &crate::findings::Finding) -> Result<bool, Fail> {
         memo_witness(f)
+    }
+    fn final_check(&self, ctx: &Ctx, st: &Stats) -> Result<(), Fail> {
+        // The listed finding K3 is identified by its signature *and* by how often it shows at each capacity on the
+        // pinned tree (known_findings.json K3.capacity_profile_ceiling_percent: measured rates with a wide margin).
+        // A change that lets the same mechanism bite far more often - every binary expression at capacity 5, say -
+        // is not the listed finding.
+        let k3 = match ctx.findings.for_property("C17").find(|f| f.id == "K3" && f.status == "known") {
+            Some(f) => f,
+            None => return Ok(()),
+        };
+        let profile = &k3.raw["capacity_profile_ceiling_percent"];
+        if !profile.is_object() {
+            return Ok(());
+        }
+        for (k, run) in st.counters.iter().filter(|(k, _)| k.starts_with("inputs run at capacity")) {
+            let cap = k.split_whitespace().last().unwrap_or("").to_string();
+            if *run < 2000 {
+                continue;
+            }
+            let hits = st.counters.get(&format!("K3-attributed divergences at capacity {:>4}", cap)).copied().unwrap_or(0);
+            let ceiling = profile[&cap].as_f64().or_else(|| profile["other"].as_f64()).unwrap_or(100.0);
+            let rate = 100.0 * hits as f64 / *run as f64;
+            if rate > ceiling {
+                return Err(Fail::new(
+                    format!(
+                        "at memo capacity {} the divergences that match K3's signature make up {:.2} % of the inputs ({} of {}); the listed finding shows in at most {} % there",
+                        cap, rate, hits, run, ceiling
+                    ),
+                    json!({"capacity": cap, "divergences": hits, "inputs": run, "ceiling_percent": ceiling}),
+                ));
+            }
+        }
+        Ok(())
     }
 }
 
